@@ -8,7 +8,7 @@ import numpy as np
 from vlib import core, dom, rescorr
 
 ID = "C04"
-PROPS = ["C04_update.v", "C01_matrix.v", "C04_step_system.v", "C02_mesh.v", "C04_acceptance.v", "C04_time_loop.v"]
+PROPS = ["C04_update.v", "C01_matrix.v", "C04_step_system.v", "C02_mesh.v", "C04_acceptance.v", "C04_time_loop.v", "C04_end_to_end.v"]
 GEN = ["reservoir"]
 RES_TOL = 1e-9
 
